@@ -38,7 +38,7 @@ impl Prop for C01 {
     fn budget(tier: Tier) -> Budget {
         match tier {
             Tier::Quick => Budget { cases: 7500, shards: 16 },
-            Tier::Thorough => Budget { cases: 80_000, shards: 16 },
+            Tier::Thorough => Budget { cases: 640000, shards: 16 },
         }
     }
 
